@@ -21,6 +21,7 @@ import (
 type c05Case struct {
 	lsw.Case
 	Plan []inject.Fault `json:"plan"`
+	Only string         `json:"only,omitempty"` // restrict the plan to one kind of client call
 }
 
 func genC05(t *rapid.T) c05Case {
@@ -36,6 +37,25 @@ func genC05(t *rapid.T) c05Case {
 			f.Arg = rapid.IntRange(0, 3000).Draw(t, "arg")
 		}
 		c.Plan = append(c.Plan, f)
+	}
+	// a third of the cases end with a compaction ladder (several level-1 files, then level 2 and 3 built from files
+	// read back from the replica) with the plan concentrated on one kind of client call
+	if rapid.IntRange(0, 2).Draw(t, "ladder") == 0 {
+		if c.Cfg.Levels < 2 {
+			c.Cfg.Levels = rapid.IntRange(2, 3).Draw(t, "ladderLevels")
+		}
+		c.Only = rapid.SampledFrom([]string{"open", "open", "write", "list", ""}).Draw(t, "only")
+		rounds := rapid.IntRange(2, 3).Draw(t, "ladderRounds")
+		for l2 := 0; l2 < rapid.IntRange(1, 2).Draw(t, "ladderL2"); l2++ {
+			for r := 0; r < rounds; r++ {
+				c.Ops = append(c.Ops, lsw.Op{K: "insert", T: 0, N: rapid.SampledFrom([]int{1, 5, 12}).Draw(t, "n"), S: 1}, lsw.Op{K: "syncwait"}, lsw.Op{K: "compact", L: 1})
+			}
+			c.Ops = append(c.Ops, lsw.Op{K: "compact", L: 2})
+		}
+		if c.Cfg.Levels >= 3 {
+			c.Ops = append(c.Ops, lsw.Op{K: "compact", L: 3})
+		}
+		c.Ops = append(c.Ops, lsw.Op{K: "syncwait"})
 	}
 	// the history ends with a Close half of the time (its final sync + retry loop under faults)
 	if rapid.Bool().Draw(t, "endClose") {
@@ -72,7 +92,7 @@ func execC05(c c05Case) (res core.Result) {
 	var fc *inject.FaultClient
 	var gap string
 	w.WrapClient = func(inner litestream.ReplicaClient) litestream.ReplicaClient {
-		fc = &inject.FaultClient{Inner: inner, Plan: c.Plan, Enabled: true}
+		fc = &inject.FaultClient{Inner: inner, Plan: c.Plan, Enabled: true, Only: c.Only}
 		fc.AfterCall = func(call inject.Call) {
 			if gap != "" {
 				return
@@ -87,7 +107,7 @@ func execC05(c c05Case) (res core.Result) {
 		panic(fmt.Sprintf("harness: attach: %v", err))
 	}
 	ctx := context.Background()
-	res.Key = core.HashStrings(c.Abstract(), core.HashJSON(c.Plan))
+	res.Key = core.HashStrings(c.Abstract(), core.HashJSON(c.Plan), c.Only)
 	ambiguousThenAck := false
 	sawAmbiguous := false
 	defer func() {
